@@ -165,3 +165,92 @@ package fshelper
 //@   field fs immutable
 //@ type ROFilespace
 //@   field fs immutable
+
+// ---- C04: stream copies report every failure and close what they opened ----
+//@ func StreamCopy [C04 C06]
+//@   layers contract trace
+//@   requires sourcefs != nil && destfs != nil && sourcefs != destfs
+//@   only_calls sourcefs : ReadDir IsExist IsFile IsDir ReadFile Reader Lstat Filespace
+//@   trace Filespace.Reader as READER bind rd
+//@   trace Filespace.Writer as WRITER bind wr
+//@   trace io.Copy as COPY bind cp
+//@   trace Writer.Close as WCLOSE bind wc
+//@   trace Reader.Close as RCLOSE bind rc
+//@   at_call Filespace.Reader requires $recv == sourcefs && $0 == subPath
+//@   at_call Filespace.Writer requires $recv == destfs && $0 == subPath
+//@   at_call io.Copy requires $0 == wr.0 && $1 == rd.0
+//@   trace_ensures rd.1 != nil : ^READER $
+//@   trace_ensures rd.1 == nil && wr.1 != nil : ^READER WRITER RCLOSE $
+//@   trace_ensures rd.1 == nil && wr.1 == nil : ^READER WRITER COPY WCLOSE RCLOSE $
+//@   ensures err == nil ==> rd.1 == nil && wr.1 == nil && cp.1 == nil && wc == nil && rc == nil
+//@   ensures rd.1 != nil ==> err == rd.1
+//@   ensures rd.1 == nil && wr.1 != nil ==> err == wr.1
+//@   ensures rd.1 == nil && wr.1 == nil && cp.1 != nil ==> err == cp.1
+
+//@ func Copier.copyFile [C04 C06]
+//@   layers contract trace
+//@   requires c.SrcFS != nil && c.DestFS != nil && c.SrcFS != c.DestFS
+//@   only_calls c.SrcFS : ReadDir IsExist IsFile IsDir ReadFile Reader Lstat Filespace
+//@   trace Filespace.Reader as READER bind rd
+//@   trace Filespace.Writer as WRITER bind wr
+//@   trace io.Copy as COPY bind cp
+//@   trace Writer.Close as WCLOSE bind wc
+//@   trace Reader.Close as RCLOSE bind rc
+//@   at_call Filespace.Reader requires $recv == c.SrcFS && $0 == c.SrcPath
+//@   at_call Filespace.Writer requires $recv == c.DestFS && $0 == c.DestPath
+//@   at_call io.Copy requires $0 == wr.0 && $1 == rd.0
+//@   trace_ensures rd.1 != nil : ^READER $
+//@   trace_ensures rd.1 == nil && wr.1 != nil : ^READER WRITER RCLOSE $
+//@   trace_ensures rd.1 == nil && wr.1 == nil : ^READER WRITER COPY WCLOSE RCLOSE $
+//@   ensures err == nil ==> rd.1 == nil && wr.1 == nil && cp.1 == nil && wc == nil && rc == nil
+//@   ensures rd.1 != nil ==> err == rd.1
+//@   ensures rd.1 == nil && wr.1 != nil ==> err == wr.1
+//@   ensures rd.1 == nil && wr.1 == nil && cp.1 != nil ==> err == cp.1
+
+//@ func Copier.Do [C04 C06]
+//@   layers contract trace
+//@   requires c.SrcFS != nil && c.DestFS != nil && c.SrcFS != c.DestFS
+//@   only_calls c.SrcFS : ReadDir IsExist IsFile IsDir ReadFile Reader Lstat Filespace
+//@   trace Copier.copyFile as FILE bind fe
+//@   trace Copier.copyDirectory as DIR bind de
+//@   at_call Copier.copyFile requires $0 == c
+//@   at_call Copier.copyDirectory requires $0 == c
+//@   trace_ensures true : ^(FILE|DIR) $
+
+// directory copy: the destination directory is created, then the tree copy runs from the
+// source's child view into the destination's child view; the source itself is only read
+//@ func Copier.copyDirectory [C04 C06]
+//@   layers contract trace
+//@   requires c.SrcFS != nil && c.DestFS != nil && c.SrcFS != c.DestFS
+//@   trace Filespace.IsDir as ISDIR
+//@   trace Filespace.Filespace as VIEW bind view
+//@   trace Filespace.MkdirAll as MKDIR bind mk
+//@   trace Copy as TREECOPY bind tc
+//@   at_call Filespace.MkdirAll requires $recv == c.DestFS && $0 == c.DestPath
+//@   at_call Filespace.IsDir requires $recv == c.SrcFS
+//@   trace_ensures err == nil : ^ISDIR VIEW MKDIR VIEW TREECOPY $
+//@   trace_ensures mk != nil : MKDIR $
+//@   ensures err == nil ==> tc == nil
+
+// the per-file callback of the tree copy returns the error of the directory creation or of the stream copy
+//@ func Copy$2 [C04 C06]
+//@   layers contract trace
+//@   requires destfs != nil && srcfs != nil && srcfs != destfs
+//@   trace Filespace.MkdirAll as MKDIR bind mk
+//@   trace StreamCopy as STREAM bind sc
+//@   at_call StreamCopy requires $0 == srcfs && $1 == destfs && $2 == subPath
+//@   at_call Filespace.MkdirAll requires $recv == destfs
+//@   trace_ensures mk != nil : ^MKDIR $
+//@   trace_ensures mk == nil : ^MKDIR STREAM $
+//@   ensures mk != nil ==> err == mk
+//@   ensures mk == nil ==> err == sc
+//@ func Copy$1 [C04 C06]
+//@   layers contract trace
+//@   requires destfs != nil
+//@   at_call Filespace.MkdirAll requires $recv == destfs && $0 == subPath
+
+// tree copy: the source is only read; per-node work is done by the callbacks above
+//@ func Copy [C04 C06]
+//@   layers contract
+//@   requires srcfs != nil && destfs != nil && srcfs != destfs
+//@   only_calls srcfs : ReadDir IsExist IsFile IsDir ReadFile Reader Lstat Filespace
